@@ -1,3 +1,364 @@
 import UvModel.Tpool
+/-! helper lemmas for C08: the locked loop of worker(), the location invariant `Inv` and its preservation -/
 namespace UvModel.Tpool
+
+@[simp] theorem upd_same {α} (f : Nat → α) (i : Nat) (x : α) : upd f i x i = x := by simp [upd]
+theorem upd_ne {α} (f : Nat → α) (i j : Nat) (x : α) (h : j ≠ i) : upd f i x j = f j := by simp [upd, h]
+
+/-- what one pass through the locked loop of worker() does to the queues -/
+def DqSpec (T r : Int) (wq : List Ent) (sq : List Nat) : DqOut → Prop
+  | .fuel => True
+  | .wait wq' sq' => sq' = sq ∧ (∀ j, Ent.item j ∈ wq' ↔ Ent.item j ∈ wq) ∧ wq'.Nodup ∧
+      (wq' = [] ∨ (wq' = [.marker] ∧ r ≥ T)) ∧ (Ent.marker ∈ wq' → Ent.marker ∈ wq) ∧
+      (sq ≠ [] → Ent.marker ∈ wq → Ent.marker ∈ wq')
+  | .take i false wq' sq' sig => sq' = sq ∧ sig = false ∧ Ent.item i ∈ wq ∧ wq'.Nodup ∧
+      (∀ j, Ent.item j ∈ wq' ↔ (Ent.item j ∈ wq ∧ j ≠ i)) ∧ (Ent.marker ∈ wq' → Ent.marker ∈ wq) ∧
+      (sq ≠ [] → Ent.marker ∈ wq → Ent.marker ∈ wq')
+  | .take i true wq' sq' sig => sq = i :: sq' ∧ r < T ∧ (∀ j, Ent.item j ∈ wq' ↔ Ent.item j ∈ wq) ∧
+      wq'.Nodup ∧ (sig = true ↔ sq' ≠ []) ∧ (Ent.marker ∈ wq' ↔ sq' ≠ []) ∧ Ent.marker ∈ wq
+
+theorem dq_spec (T r : Int) (f : Nat) (wq : List Ent) (sq : List Nat) (h : wq.Nodup) :
+    DqSpec T r wq sq (dqLoop T r f wq sq) := by
+  induction f generalizing wq with
+  | zero => simp [dqLoop, DqSpec]
+  | succ f ih =>
+    unfold dqLoop
+    split
+    · simp [DqSpec]
+    · rename_i i rest
+      simp only [DqSpec]
+      grind
+    · rename_i rest
+      split
+      · simp only [DqSpec]; grind
+      · split
+        · have h2 : (rest ++ [Ent.marker]).Nodup := by grind
+          have := ih (rest ++ [Ent.marker]) h2
+          revert this
+          generalize dqLoop T r f (rest ++ [Ent.marker]) sq = o
+          cases o with
+          | fuel => simp [DqSpec]
+          | wait a b => simp only [DqSpec]; grind
+          | take i s a b c => cases s <;> simp only [DqSpec] <;> grind
+        · split
+          · have h2 : rest.Nodup := by grind
+            have := ih rest h2
+            revert this
+            generalize dqLoop T r f rest [] = o
+            cases o with
+            | fuel => simp [DqSpec]
+            | wait a b => simp only [DqSpec]; grind
+            | take i s a b c => cases s <;> simp only [DqSpec] <;> grind
+          · split <;> simp only [DqSpec] <;> grind
+
+
+theorem dq_fuel (T r : Int) (f : Nat) (wq : List Ent) (sq : List Nat) (h : wq.Nodup) (hf : 2 ≤ f) :
+    dqLoop T r f wq sq ≠ .fuel := by
+  obtain ⟨f, rfl⟩ : ∃ g, f = g + 2 := ⟨f - 2, by omega⟩
+  unfold dqLoop
+  split
+  · simp
+  · simp
+  · rename_i rest
+    split
+    · simp
+    · split
+      · cases rest with
+        | nil => grind
+        | cons e rest' =>
+          cases e with
+          | item j => simp [dqLoop]
+          | marker => grind
+      · split
+        · cases rest with
+          | nil => simp [dqLoop]
+          | cons e rest' =>
+            cases e with
+            | item j => simp [dqLoop]
+            | marker => grind
+        · split <;> simp
+
+/-! ## the invariant -/
+
+def WPhase.gotItem : WPhase → Option Nat | .got i _ => some i | _ => none
+def WPhase.inwItem : WPhase → Option Nat | .inwork i _ => some i | _ => none
+
+
+/-- consistency of one item's real fields with its (ghost) location and counters -/
+def ItemOk (it : Item) : Prop :=
+  match it.loc with
+  | .globalQ => it.work = .fn ∧ it.linked = true ∧ it.starts = 0 ∧ it.returned = false ∧ it.dones = 0 ∧
+      it.cancelOk = false ∧ it.kind ≠ .slow
+  | .slowQ => it.work = .fn ∧ it.linked = true ∧ it.starts = 0 ∧ it.returned = false ∧ it.dones = 0 ∧
+      it.cancelOk = false ∧ it.kind = .slow
+  | .got _ => it.work = .fn ∧ it.linked = false ∧ it.starts = 0 ∧ it.returned = false ∧ it.dones = 0 ∧
+      it.cancelOk = false
+  | .inwork _ => it.work = .fn ∧ it.linked = false ∧ it.starts = 1 ∧ it.returned = false ∧ it.dones = 0 ∧
+      it.cancelOk = false
+  | .loopQ => it.linked = true ∧ it.dones = 0 ∧
+      ((it.work = .null ∧ it.starts = 1 ∧ it.returned = true ∧ it.cancelOk = false) ∨
+       (it.work = .cancelled ∧ it.starts = 0 ∧ it.returned = false ∧ it.cancelOk = true))
+  | .cmid => it.work ≠ .null ∧ it.linked = true ∧ it.starts = 0 ∧ it.returned = false ∧ it.dones = 0 ∧
+      (it.cancelOk = true ↔ it.work = .cancelled)
+  | .reported => it.dones = 1 ∧
+      ((it.status = 0 ∧ it.starts = 1 ∧ it.returned = true ∧ it.cancelOk = false) ∨
+       (it.status = ECANCELED ∧ it.starts = 0 ∧ it.returned = false ∧ it.cancelOk = true))
+
+structure Inv (s : State) : Prop where
+  itemOk : ∀ i, i < s.nItems → ItemOk (s.items i)
+  wqLoc : ∀ i, Ent.item i ∈ s.wq → i < s.nItems ∧ (s.items i).loc = .globalQ
+  sqLoc : ∀ i, i ∈ s.sq → i < s.nItems ∧ (s.items i).loc = .slowQ
+  gotLoc : ∀ t i b, s.workers t = .got i b → i < s.nItems ∧ (s.items i).loc = .got t
+  inwLoc : ∀ t i b, s.workers t = .inwork i b → i < s.nItems ∧ (s.items i).loc = .inwork t
+  lqLoc : ∀ l i, (i ∈ (s.loops l).q ∨ i ∈ (s.loops l).lq) →
+      i < s.nItems ∧ (s.items i).loc = .loopQ ∧ (s.items i).loop = l
+  cmLoc : ∀ l i, (s.loops l).cmid = some (i, true) →
+      i < s.nItems ∧ (s.items i).loc = .cmid ∧ (s.items i).loop = l
+  wqNd : s.wq.Nodup
+  sqNd : s.sq.Nodup
+  lqNd : ∀ l, ((s.loops l).q ++ (s.loops l).lq).Nodup
+  -- reverse direction: the ghost location is where the item really is
+  wqRev : ∀ i, i < s.nItems → (s.items i).loc = .globalQ → Ent.item i ∈ s.wq
+  sqRev : ∀ i, i < s.nItems → (s.items i).loc = .slowQ → i ∈ s.sq
+  lqRev : ∀ i, i < s.nItems → (s.items i).loc = .loopQ →
+      i ∈ (s.loops (s.items i).loop).q ∨ i ∈ (s.loops (s.items i).loop).lq
+  cmRev : ∀ i, i < s.nItems → (s.items i).loc = .cmid → (s.loops (s.items i).loop).cmid = some (i, true)
+  gotRev : ∀ i t, i < s.nItems → (s.items i).loc = .got t → (s.workers t).gotItem = some i
+  inwRev : ∀ i t, i < s.nItems → (s.items i).loc = .inwork t → (s.workers t).inwItem = some i
+  lqTop : ∀ l, (s.loops l).phase = .top → (s.loops l).lq = []
+
+theorem inv_init (n L : Nat) : Inv (State.init n L) := by
+  constructor <;> simp [State.init, LoopSt.init]
+
+
+theorem signal_cases (s : State) (c : Nat) :
+    signal s c = s ∨ ∃ w, s.workers w = .waiting ∧ signal s c = { s with workers := upd s.workers w .woken } := by
+  unfold signal
+  simp only []
+  split
+  · exact Or.inl rfl
+  · rename_i w hw
+    right
+    refine ⟨w, ?_, rfl⟩
+    have : w ∈ waiters s := List.mem_of_getElem? hw
+    simp [waiters] at this
+    exact this.2
+
+theorem inv_wake {s : State} {w : Nat} (h : Inv s) (hw : s.workers w = .waiting) :
+    Inv { s with workers := upd s.workers w .woken } := by
+  have h1 := h.gotLoc; have h2 := h.inwLoc; have h3 := h.gotRev; have h4 := h.inwRev
+  exact { h with
+    gotLoc := by intro t i b; simp only [upd]; grind
+    inwLoc := by intro t i b; simp only [upd]; grind
+    gotRev := by intro i t; simp only [upd]; grind [WPhase.gotItem]
+    inwRev := by intro i t; simp only [upd]; grind [WPhase.inwItem] }
+
+theorem inv_signal {s : State} (c : Nat) (h : Inv s) : Inv (signal s c) := by
+  rcases signal_cases s c with e | ⟨w, hw, e⟩
+  · rw [e]; exact h
+  · rw [e]; exact inv_wake h hw
+
+
+
+macro "inv_fields" h:ident : tactic => `(tactic| (
+  have h1 := ($h).itemOk; have h2 := ($h).wqLoc; have h3 := ($h).sqLoc; have h4 := ($h).gotLoc
+  have h5 := ($h).inwLoc; have h6 := ($h).lqLoc; have h7 := ($h).cmLoc; have h8 := ($h).wqNd
+  have h9 := ($h).sqNd; have h10 := ($h).lqNd; have h11 := ($h).wqRev; have h12 := ($h).sqRev
+  have h13 := ($h).lqRev; have h14 := ($h).cmRev; have h15 := ($h).gotRev; have h16 := ($h).inwRev
+  have h17 := ($h).lqTop
+  constructor
+  · clear h8 h9 h10 h11 h12 h13 h15 h16; intros; simp only [upd, ItemOk] at *; grind
+  · clear h1 h9 h10 h11 h12 h13 h14 h15 h16; intros; simp only [upd] at *; grind
+  · clear h1 h8 h10 h11 h12 h13 h14 h15 h16; intros; simp only [upd] at *; grind
+  · clear h1 h8 h9 h10 h11 h12 h13 h14 h15 h16; intros; simp only [upd] at *; grind
+  · clear h1 h8 h9 h10 h11 h12 h13 h14 h15 h16; intros; simp only [upd] at *; grind
+  · clear h1 h8 h9 h11 h12 h13 h14 h15 h16; intros; simp only [upd] at *; grind
+  · clear h1 h8 h9 h10 h11 h12 h13 h15 h16; intros; simp only [upd] at *; grind
+  · clear h1 h3 h4 h5 h6 h7 h9 h10 h11 h12 h13 h14 h15 h16; simp only [upd] at *; grind
+  · clear h1 h2 h4 h5 h6 h7 h8 h10 h11 h12 h13 h14 h15 h16; simp only [upd] at *; grind
+  · clear h1 h8 h9 h11 h12 h13 h14 h15 h16; intros; simp only [upd] at *; grind
+  · clear h1 h8 h9 h10 h12 h13 h14 h15 h16; intros; simp only [upd] at *; grind
+  · clear h1 h8 h9 h10 h11 h13 h14 h15 h16; intros; simp only [upd] at *; grind
+  · clear h1 h8 h9 h10 h11 h12 h14 h15 h16; intros; simp only [upd] at *; grind
+  · clear h1 h8 h9 h10 h11 h12 h13 h15 h16; intros; simp only [upd] at *; grind
+  · clear h1 h8 h9 h10 h11 h12 h13 h14 h16; intros; simp only [upd] at *; grind [WPhase.gotItem]
+  · clear h1 h8 h9 h10 h11 h12 h13 h14 h15; intros; simp only [upd] at *; grind [WPhase.inwItem]
+  · clear h1 h2 h3 h4 h5 h6 h7 h8 h9 h10 h11 h12 h13 h14 h15 h16; intros; simp only [upd] at *; grind))
+
+theorem inv_sub {s : State} (l : Nat) (k : Kind) (c : Nat) (h : Inv s) : Inv (doSub s l k c).1 := by
+  unfold doSub
+  simp only []
+  split
+  · split
+    · inv_fields h
+    · split
+      · apply inv_signal; inv_fields h
+      · inv_fields h
+  · split
+    · apply inv_signal; inv_fields h
+    · inv_fields h
+
+
+theorem inv_can1 {s : State} {l i : Nat} (h : Inv s) (hi : i < s.nItems) (hl : (s.items i).loop = l)
+    (hc : (s.loops l).cmid = none) (hd : (s.items i).dones = 0) : Inv (doCan1 s l i).1 := by
+  unfold doCan1
+  simp only []
+  split
+  · rename_i hok
+    simp only [Bool.and_eq_true, decide_eq_true_eq] at hok
+    have hloc : ((s.items i).loc = .globalQ ∨ (s.items i).loc = .slowQ ∨ (s.items i).loc = .loopQ) ∧
+        ((s.items i).cancelOk = true ↔ (s.items i).work = .cancelled) ∧ (s.items i).starts = 0 ∧
+        (s.items i).returned = false := by
+      have a := h.itemOk i hi
+      have b := h.cmRev i hi
+      simp only [ItemOk] at a
+      split at a <;> grind
+    inv_fields h
+  · inv_fields h
+
+theorem inv_can2 {s : State} {l i : Nat} {ok : Bool} (h : Inv s) (hc : (s.loops l).cmid = some (i, ok)) :
+    Inv (doCan2 s l i ok).1 := by
+  unfold doCan2
+  simp only []
+  split
+  · rename_i hok; subst hok
+    inv_fields h
+  · inv_fields h
+
+theorem inv_report {s : State} {l : Nat} (h : Inv s) (hc : (s.loops l).cmid = none) : Inv (doReport s l).1 := by
+  unfold doReport
+  simp only []
+  split
+  · inv_fields h
+  · inv_fields h
+
+theorem inv_drain {s : State} {l : Nat} (h : Inv s) (hq : (s.loops l).phase = .top) :
+    Inv (doDrain s l).1 := by
+  unfold doDrain
+  simp only []
+  have := h.lqTop l hq
+  inv_fields h
+
+
+theorem inv_idle {s : State} (x : Int) (h : Inv s) : Inv { s with idle := x } := by
+  cases h; constructor <;> assumption
+theorem inv_slowRun {s : State} (x : Int) (h : Inv s) : Inv { s with slowRun := x } := by
+  cases h; constructor <;> assumption
+
+theorem inv_region {s : State} {t : Nat} (c : Nat) (h : Inv s)
+    (hw : (s.workers t).gotItem = none ∧ (s.workers t).inwItem = none) : Inv (doRegion s t c).1 := by
+  unfold doRegion
+  have sp := dq_spec (threshold s.n) s.slowRun (dqFuel s.wq) s.wq s.sq h.wqNd
+  revert sp
+  generalize dqLoop (threshold s.n) s.slowRun (dqFuel s.wq) s.wq s.sq = o
+  intro sp
+  cases o with
+  | fuel => exact h
+  | wait wq' sq' =>
+    simp only [DqSpec] at sp
+    obtain ⟨e1, e2, e3, -, -, -⟩ := sp
+    subst e1
+    simp only []
+    inv_fields h
+  | take i slow wq' sq' sig =>
+    cases slow
+    · simp only [DqSpec] at sp
+      obtain ⟨e1, e0, e2, e3, e4, -, -⟩ := sp
+      subst e1 e0
+      simp only [Bool.false_and, Bool.false_eq_true, ↓reduceIte]
+      inv_fields h
+    · simp only [DqSpec] at sp
+      obtain ⟨e1, -, e2, e3, -, -, -⟩ := sp
+      simp only []
+      split
+      · apply inv_signal; inv_fields h
+      · inv_fields h
+
+theorem fst_of_eq {α β} {p : α × β} {a : α} {b : β} (e : p = (a, b)) : p.1 = a := by rw [e]
+
+theorem inv_worker {s s' : State} {t c : Nat} {evs : List Ev} (h : Inv s)
+    (e : doWorker s t c = some (s', evs)) : Inv s' := by
+  unfold doWorker at e
+  split at e
+  · simp at e
+  · rename_i hp
+    simp only [Option.some.injEq] at e
+    rw [← fst_of_eq e]; exact inv_region c h (by simp [hp, WPhase.gotItem, WPhase.inwItem])
+  · rename_i hp
+    simp only [Option.some.injEq] at e
+    rw [← fst_of_eq e]; exact inv_region c (inv_idle _ h) (by simp [hp, WPhase.gotItem, WPhase.inwItem])
+  · rename_i slow hp
+    simp only [Option.some.injEq] at e
+    rw [← fst_of_eq e]; exact inv_region c (inv_slowRun _ h) (by simp [hp, WPhase.gotItem, WPhase.inwItem])
+  · rename_i i slow hp
+    simp only [Option.some.injEq] at e
+    obtain ⟨rfl, -⟩ := Prod.mk.inj e
+    have := h.gotLoc t i slow hp
+    inv_fields h
+  · rename_i i slow hp
+    simp only [Option.some.injEq] at e
+    obtain ⟨rfl, -⟩ := Prod.mk.inj e
+    have := h.inwLoc t i slow hp
+    inv_fields h
+
+theorem inv_step {s s' : State} {a : Act} {evs : List Ev} (h : Inv s) (e : step s a = some (s', evs)) :
+    Inv s' := by
+  unfold step at e
+  cases a with
+  | sub l k c =>
+    simp only [] at e
+    split at e
+    · simp only [Option.some.injEq] at e; rw [← fst_of_eq e]; exact inv_sub l k c h
+    · simp at e
+  | can l i =>
+    simp only [] at e
+    split at e
+    · rename_i hc
+      simp only [Option.some.injEq] at e; rw [← fst_of_eq e]
+      have : (s.loops l).cmid = none := by
+        have := hc.2.1; simp [loopReady] at this; exact this.1
+      exact inv_can1 h hc.2.2.1 hc.2.2.2.1 this hc.2.2.2.2
+    · simp at e
+  | go l =>
+    simp only [] at e
+    split at e
+    · split at e
+      · rename_i i ok hc
+        simp only [Option.some.injEq] at e; rw [← fst_of_eq e]; exact inv_can2 h hc
+      · rename_i hc
+        split at e
+        · simp at e
+        · simp only [Option.some.injEq] at e; rw [← fst_of_eq e]; exact inv_report h hc
+    · simp at e
+  | drn l =>
+    simp only [] at e
+    split at e
+    · rename_i hc
+      simp only [Option.some.injEq] at e; rw [← fst_of_eq e]; exact inv_drain h hc.2.1
+    · simp at e
+  | wk t c =>
+    simp only [] at e
+    split at e
+    · exact inv_worker h e
+    · simp at e
+  | wake t =>
+    simp only [] at e
+    split at e
+    · rename_i hc
+      simp only [Option.some.injEq] at e; obtain ⟨rfl, -⟩ := Prod.mk.inj e; exact inv_wake h hc.2
+    · simp at e
+
+theorem inv_run {s : State} (as : List Act) (h : Inv s) : Inv (run s as) := by
+  induction as generalizing s with
+  | nil => exact h
+  | cons a as ih =>
+    simp only [run]
+    split
+    · rename_i s' evs e; exact ih (inv_step h e)
+    · exact ih h
+
+theorem inv_reach {n L : Nat} {s : State} (h : Reach n L s) : Inv s := by
+  obtain ⟨as, rfl⟩ := h
+  exact inv_run as (inv_init n L)
+
 end UvModel.Tpool
